@@ -102,10 +102,20 @@ func TestDualContouring(t *testing.T) {
 	rapid.Check(t, func(t *rapid.T) {
 		st := rapid.SampledFrom(settings).Draw(t, "setting")
 		S := rapid.SampledFrom([]float64{1, 10}).Draw(t, "scale")
-		kind := rapid.SampledFrom([]string{"exact", "exact", "csg"}).Draw(t, "kind")
+		kind := rapid.SampledFrom([]string{"exact", "exact", "csg", "squashed"}).Draw(t, "kind")
 		var n *shape.Node
+		minScale := 1.0
 		if kind == "exact" {
 			n = shape.GenExact3(t, S, rapid.IntRange(0, 2).Draw(t, "depth"))
+		} else if kind == "squashed" {
+			// a matrix-scaled shape (ellipsoid, squashed box ...): its field is not a distance bound - it
+			// over-estimates along a squashed axis - but its zero set is a perfectly good surface
+			k := []float64{g.LogUniform(t, "kx", 0.3, 3), g.LogUniform(t, "ky", 0.3, 3), g.LogUniform(t, "kz", 0.3, 3)}
+			minScale = math.Min(k[0], math.Min(k[1], k[2]))
+			n = &shape.Node{Op: "nuscale3", P: k, K: []*shape.Node{shape.GenExact3(t, S, rapid.IntRange(0, 1).Draw(t, "depth"))}}
+			if rapid.Bool().Draw(t, "placed") {
+				n = shape.Place3(t, n, S)
+			}
 		} else {
 			a, b := shape.GenExact3(t, S, 1), shape.GenExact3(t, S, 1)
 			op := rapid.SampledFrom([]string{"union3", "diff3", "isect3"}).Draw(t, "op")
@@ -141,7 +151,7 @@ func TestDualContouring(t *testing.T) {
 		for i := 0.0; i <= cn.X && !deep; i++ {
 			for j := 0.0; j <= cn.Y && !deep; j++ {
 				for k := 0.0; k <= cn.Z && !deep; k++ {
-					if s.Evaluate(nb.Min.Add(v3.Vec{X: i * h, Y: j * h, Z: k * h})) <= -diag {
+					if s.Evaluate(nb.Min.Add(v3.Vec{X: i * h, Y: j * h, Z: k * h}))*math.Min(1, minScale) <= -diag {
 						deep = true
 					}
 				}
@@ -194,7 +204,9 @@ func TestDualContouring(t *testing.T) {
 				if exact {
 					d = math.Abs(f(oracle.V3{v.X, v.Y, v.Z}))
 				} else {
-					d = math.Abs(s.Evaluate(v))
+					// |f| is a lower bound of the distance for CSG of exact fields; for a matrix-scaled
+					// exact field the distance is at least (smallest scale factor) * |f|
+					d = math.Abs(s.Evaluate(v)) * math.Min(1, minScale)
 				}
 				worst = math.Max(worst, d)
 				if d > diag*(1+1e-9) {
